@@ -67,6 +67,10 @@ type caseSpec struct {
 	// ShortWrites: percentages handed to the system-call shim; the kernel is offered only that
 	// share of each write/writev on the connections (0 = EAGAIN, LT mode only)
 	ShortWrites []int
+	// Predecessor > 0: before the checked connections, one connection answers with that many bytes
+	// to a peer that reads nothing and is closed by its handler with most of them unsent (its
+	// buffers go back to the pools holding data)
+	Predecessor int
 }
 
 func (o wop) String() string {
@@ -86,7 +90,7 @@ func (o wop) String() string {
 
 func (c caseSpec) String() string {
 	var b strings.Builder
-	fmt.Fprintf(&b, "cfg: %s shortWrites%%=%v\n", c.Cfg, c.ShortWrites)
+	fmt.Fprintf(&b, "cfg: %s shortWrites%%=%v predecessorWithUnsentOutput=%d\n", c.Cfg, c.ShortWrites, c.Predecessor)
 	for i, cs := range c.Conns {
 		fmt.Fprintf(&b, " conn%d: openReply %d batches %v\n        peer %v\n", i, cs.OpenReply, cs.Batches, cs.Peer)
 	}
@@ -404,6 +408,18 @@ func runSession(cs caseSpec) (res result) {
 	var mu sync.Mutex
 	addFail := func(s string) { mu.Lock(); res.fails = append(res.fails, s); mu.Unlock() }
 	addStall := func(s string) { mu.Lock(); res.stalls = append(res.stalls, s); mu.Unlock() }
+	if cs.Predecessor > 0 {
+		pc := &predConn{n: cs.Predecessor, closed: make(chan struct{})}
+		if peer, _, err := e.Connect(pc); err == nil {
+			_, _ = peer.Write([]byte{'g'})
+			select {
+			case <-pc.closed:
+			case <-time.After(8 * time.Second):
+				addStall("VERIF-KEY:out-stall the predecessor connection was not closed within 8s of its handler returning Close")
+			}
+			peer.Close()
+		}
+	}
 	for i := range cs.Conns {
 		st := &connState{id: i, spec: cs.Conns[i], cfg: cs.Cfg, plan: plan, seq: map[int]int{}, effSeq: map[int]int{}, doneTotal: -1, closedCh: make(chan struct{})}
 		res.states = append(res.states, st)
@@ -608,10 +624,31 @@ func drawSize(t *rapid.T, c fx.Cfg, big bool) int {
 	return rapid.SampledFrom(sizes).Draw(t, "size")
 }
 
+// predConn: see caseSpec.Predecessor.
+type predConn struct {
+	n      int
+	closed chan struct{}
+}
+
+func (p *predConn) OnOpen(gnet.Conn) ([]byte, gnet.Action) { return nil, gnet.None }
+func (p *predConn) OnTraffic(c gnet.Conn) gnet.Action {
+	_, _ = c.Discard(-1)
+	junk := bytes.Repeat([]byte{0xEE}, p.n)
+	_, _ = c.Write(junk)
+	return gnet.Close
+}
+func (p *predConn) OnClose(gnet.Conn, error) gnet.Action {
+	close(p.closed)
+	return gnet.None
+}
+
 func drawCase(t *rapid.T) caseSpec {
 	var cs caseSpec
 	cs.Cfg = fx.DrawCfg(t, fx.DrawOpt{SmallSnd: true})
 	cs.Cfg.RcvBuf = 0
+	if rapid.IntRange(0, 2).Draw(t, "predecessor") == 0 {
+		cs.Predecessor = rapid.SampledFrom([]int{3000, 200000, 1 << 20, 4 << 20}).Draw(t, "predecessorBytes")
+	}
 	if rapid.IntRange(0, 2).Draw(t, "shortWrites") == 0 {
 		pcts := []int{1, 10, 50, 99, 100, 100}
 		if !cs.Cfg.ET {
